@@ -59,6 +59,7 @@ type FuncContract struct {
 	Pure     bool
 	Inline   bool // always inline at call sites (even if contracted)
 	Uf       bool // ghost function kept as a named function: its definition is unfolded at ground arguments only, never under a quantifier
+	MapStores *Clause // condition every map store of the function must satisfy (over the parameters and verifW, verifK, verifV)
 	EscapeExempt *Clause // condition (over the parameters) under which raw texts may be written: comments, directives, ...
 	EscapesValues bool // C05: every text derived from an interface value that this function writes must come from escapeChars while xmlEscapeChars is on
 	InlineOnly bool // never verified on its own: its body is verified inlined into every verified caller (ownership data-flow obligations are still generated for it)
@@ -254,7 +255,7 @@ func ParseContracts(fset *token.FileSet, files []*ast.File) *Contracts {
 					cur = fc
 				case "inv":
 					cs.InvExprs = append(cs.InvExprs, &Clause{Kind: "inv", Expr: expandSugar(rest), Raw: rest, Line: line, File: fname})
-				case "property", "old", "requires", "ensures", "modifies", "trusted", "pure", "inline", "inline-only", "uf", "escapes-values", "escape-exempt", "invariant", "decreases", "fresh-result", "owns-lists", "replay-via", "depends-only", "opaque-result", "opaque", "havoc":
+				case "property", "old", "requires", "ensures", "modifies", "trusted", "pure", "inline", "inline-only", "uf", "escapes-values", "escape-exempt", "map-stores", "invariant", "decreases", "fresh-result", "owns-lists", "replay-via", "depends-only", "opaque-result", "opaque", "havoc":
 					if cur == nil {
 						errf("clause outside func")
 						continue
@@ -314,6 +315,8 @@ func ParseContracts(fset *token.FileSet, files []*ast.File) *Contracts {
 						cur.Uf = true
 					case "escapes-values":
 						cur.EscapesValues = true
+					case "map-stores":
+						cur.MapStores = &Clause{Kind: kw, Expr: expandSugar(rest), Raw: rest, Line: line, File: fname}
 					case "escape-exempt":
 						cur.EscapeExempt = &Clause{Kind: kw, Expr: expandSugar(rest), Raw: rest, Line: line, File: fname}
 					case "inline-only":
@@ -613,6 +616,14 @@ func (g *GhostGen) Generate() (string, []string) {
 		if fc.Decr != nil {
 			fc.Decr.Fn = fmt.Sprintf("verif__%s__decr", fc.Mangled)
 			fmt.Fprintf(&body, "func %s(%s) int { return %s }\n", fc.Decr.Fn, g.plist(params), fc.Decr.Expr)
+		}
+		if fc.MapStores != nil {
+			fc.MapStores.Fn = fmt.Sprintf("verif__%s__mapstores", fc.Mangled)
+			ps := g.plist(params)
+			if ps != "" {
+				ps += ", "
+			}
+			fmt.Fprintf(&body, "func %s(%sverifW map[string]interface{}, verifK string, verifV interface{}) bool { return %s }\n", fc.MapStores.Fn, ps, fc.MapStores.Expr)
 		}
 		if fc.EscapeExempt != nil {
 			fc.EscapeExempt.Fn = fmt.Sprintf("verif__%s__escexempt", fc.Mangled)
